@@ -3,7 +3,7 @@
    [fire_time now d] = max now (floor((now+d)/1000)*1000 rounded down to the generated 200 ms bucket). *)
 From Coq Require Import NArith List Bool.
 From AV Require Import Gen.WsConnConsts Model.WsConn Proofs.WsConnProofs Proofs.WsConnProofs2 Proofs.WsConnProofs3
-  Proofs.WsConnTimers Proofs.WsConnLive.
+  Proofs.WsConnTimers Proofs.WsConnLive Proofs.WsConnResp.
 Import ListNotations.
 Open Scope N_scope.
 
@@ -105,6 +105,49 @@ Theorem C17_responsive_flags_frozen : forall c evs evs2, st (fst (run c evs)) = 
   st s2 = CLOSED /\ wasOpenTO s2 = wasOpenTO s /\ wasCloseTO s2 = wasCloseTO s /\ wasDropTO s2 = wasDropTO s.
 Proof. exact flags_frozen. Qed.
 Print Assumptions C17_responsive_flags_frozen.
+
+(* ---- the responsive peer, as invariants over arbitrary event lists ----
+   server TCP drop: whenever the TCP loss is delivered (in particular before the server-drop fire time) the connection
+   is CLOSED at once, no timeout flag is touched, and none changes ever after: the server-drop timer has no effect *)
+Theorem C17_responsive_drop : forall c evs b evs2, gone (fst (run c evs)) = false ->
+  let s := fst (run c evs) in let s2 := fst (run c (evs ++ EPeerDrop b :: evs2)) in
+  st s2 = CLOSED /\ wasOpenTO s2 = wasOpenTO s /\ wasCloseTO s2 = wasCloseTO s /\ wasDropTO s2 = wasDropTO s.
+Proof. exact responsive_drop. Qed.
+Print Assumptions C17_responsive_drop.
+
+(* close handshake: at most one close-handshake call is ever pending and hClose points to it (invariant G of
+   Proofs/WsConnResp.v); a well-formed close frame received in CLOSING (that is: before that call has fired and
+   closed the connection) is accepted, cancels it, and none is ever armed again: whatever follows, the close-handshake
+   timeout is never reported and no such call is pending (both roles; the server is CLOSED at once anyway) *)
+Theorem C17_responsive_close : forall c evs body txt evs2,
+  gone (fst (run c evs)) = false -> st (fst (run c evs)) = CLOSING -> body_valid body ->
+  wasCloseTO (fst (run c evs)) = false ->
+  wasCloseTO (fst (run c (evs ++ EPeerClose body txt :: evs2))) = false.
+Proof. exact responsive_close_reply. Qed.
+Print Assumptions C17_responsive_close.
+
+Theorem C17_responsive_close_once_clean : forall c evs evs2,
+  (2 <= rank (st (fst (run c evs))))%nat -> wasClean (fst (run c evs)) = true -> wasCloseTO (fst (run c evs)) = false ->
+  wasCloseTO (fst (run c (evs ++ evs2))) = false /\ nk (timers (fst (run c (evs ++ evs2)))) = 0%nat.
+Proof. exact responsive_close. Qed.
+Print Assumptions C17_responsive_close_once_clean.
+
+(* auto ping, PARTIAL: what is proved is the step itself -- a matching pong while a ping is outstanding (any state in
+   which frames flow, reachable or not) clears the outstanding ping, cancels and clears the timeout handle and arms the
+   next ping with a fire time <= now + autoPingInterval -- together with C17_timeout_fires (an uncancelled timeout call
+   drops by its deadline), C17_armed_by_deadline and the computed timelines below.
+   MISSING for the full C17_responsive_ping / C17_ping_periodic over arbitrary event lists: the uniqueness invariant of
+   the auto-ping calls (at most one of {ping call, ping-timeout call} pending, hPing / hPingTO point to it; the analogue
+   of invariant G for a call that is re-armed after every pong), from which "the cancelled handle was the only
+   ping-timeout call" and "while OPEN with interval > 0 a ping call is pending or a ping is outstanding" follow.  Both
+   are exercised on every grid placement by the correspondence run (families ping, periodic). *)
+Theorem C17_responsive_ping_partial : forall c s q, frames_flow s = true -> pingPending s = Some q ->
+  TI1 (timers s) (now s) ->
+  let s' := fst (step c s (EPeerPong true)) in
+  pingPending s' = None /\ hPingTO s' = None /\ st s' = st s /\
+  (0 < autoPingInterval c -> pendLe TAutoPing (now s + autoPingInterval c) (timers s')).
+Proof. exact responsive_ping_step. Qed.
+Print Assumptions C17_responsive_ping_partial.
 
 (* ---- after CLOSED ----
    "no timer has any effect after the connection is closed": advancing the clock produces no output whatsoever,
